@@ -7,7 +7,7 @@ import zlib
 import numpy as np
 
 from sim import filgen
-from sim.core import Rejected, SimLivelock, Violation
+from sim.core import open_reader, Rejected, SimLivelock, Violation
 from sim.disk import SimDisk
 
 from .c02 import after_list_removal  # noqa: F401
@@ -305,7 +305,7 @@ def exec_clean(sc, ctx) -> None:
             nblk = blocks_of(ns, min(gulp, ns))
             if nblk >= 3:
                 ctx.probe(">=3-blocks")
-            reader = FilReader(fs.paths)  # fresh reader: clean_rfi caches the statistics on the object
+            reader = open_reader("C16", fs.paths)  # fresh reader: clean_rfi caches the statistics on the object
             sim.begin_op(i, budget=64 * (nblk + 2) * (len(spec["nsamps"]) + 2) + 64)
             sim.free_space()
             fired0 = sum(ctx.faults.values())
